@@ -397,6 +397,8 @@ class SeriesOps:
     def external(self, name: str, pos: List[Any], kw: Dict[str, Any], node) -> Any:
         M, I = self.M, self.I
         short = name.split(".")[-1]
+        if any(isinstance(p_, GenCall) for p_ in pos) and not name.startswith("builtins."):
+            pos = [I.materialise(p_) if isinstance(p_, GenCall) else p_ for p_ in pos]          # a library function consumes the generator it is given
         a0 = pos[0] if pos else None
         if name.startswith("builtins."):
             return self.builtin(short, pos, kw, node)
